@@ -31,11 +31,15 @@ pub fn gen_scenario(rng: &mut Rng, with_eval: bool) -> Scenario {
     let net = gen_net(rng, &opts);
     // mostly small sets; one in eight is large enough that different split trees of the
     // parallel batch map contain leaves of three or more samples
-    let n = match rng.below(8) {
-        0 => 1,
-        1 => rng.range(2, 4),
-        2 => rng.range(17, 48),
-        _ => rng.range(2, 12),
+    let n = if scale() {
+        rng.range(100, 400)
+    } else {
+        match rng.below(8) {
+            0 => 1,
+            1 => rng.range(2, 4),
+            2 => rng.range(17, 48),
+            _ => rng.range(2, 12),
+        }
     };
     let batch = match rng.below(6) {
         0 => 1,
@@ -49,7 +53,7 @@ pub fn gen_scenario(rng: &mut Rng, with_eval: bool) -> Scenario {
             }
         }
     };
-    let epochs = rng.range(1, 3) as i32;
+    let epochs = if scale() { rng.range(3, 12) as i32 } else { rng.range(1, 3) as i32 };
     let train = gen_data(rng, &net, n);
     let val = if with_eval && rng.chance(0.5) {
         let v = if rng.chance(0.5) { eval_size(rng) } else { rng.range(1, 6) };
@@ -153,15 +157,18 @@ impl Property for C05 {
             "loop_connection",
             "batch_ge_17",
             "print_some",
+            "scale_stratum",
         ]
     }
 
     fn generate(&self, rng: &mut Rng, tier: Tier) -> Case {
+        let scale_case = begin_case(rng);
         let sc = gen_scenario(rng, true);
         let (clock, _) = draw_clock(rng);
-        let k = match tier {
-            Tier::Quick => 6,
-            Tier::Thorough => 16,
+        let k = match (tier, scale_case) {
+            (_, true) => 3,
+            (Tier::Quick, _) => 6,
+            (Tier::Thorough, _) => 16,
         };
         let mut alts = Vec::new();
         // exact repetition of the reference
